@@ -52,6 +52,10 @@ class TextData(Data):
                     [v.decode("utf-8") if isinstance(v, bytes) else v for v in values]
                 )
 
+            if isinstance(values, np.ndarray) and values.size == 0:
+                # an empty array has no entry to tell its type by
+                values = values.astype(str)
+
             if isinstance(values, str) and self.association in (
                 DataAssociationEnum.VERTEX,
                 DataAssociationEnum.CELL,
